@@ -246,6 +246,17 @@ class C02(Check):
                    'x = x excluded (C04); model carries the self-assignment guard',
                    'the Model mirrors the C++ code: validated by correspondence only']
 
+    def run_impl(self, cases, tag='impl'):
+        # chunks of 350 cases: a broken tree may crash on most cases, and the shared runner gives up after 400
+        # restarts per call - with chunks every crash still ends in a VIOLATION with a concrete failing input
+        res, crashes = [], {}
+        for off in range(0, len(cases), 350):
+            r, c = Check.run_impl(self, cases[off:off + 350], tag=tag)
+            res += r
+            for k, v in c.items():
+                crashes[off + k] = v
+        return res, crashes
+
     def nontrivial(self, case, obs):
         # a chain of length >= 2 was observed in the implementation's bucket dump, and something was unlinked
         chained = any(re.search(r'B\[[^\]]*=[^ \],]+,', l) for l in obs)
